@@ -57,8 +57,8 @@ class PrivateHeader:
         self.sectionCount = self.stream.get_int(1)
         self.obmcLogID = self.stream.get_int(4)
         self.creatorVersion = "0x{:02X}".format(self.stream.get_int(8))
-        self.pLID = "0x{:02X}".format(self.stream.get_int(4))
-        self.lEID = "0x{:02X}".format(self.stream.get_int(4))
+        self.pLID = "0x{:08X}".format(self.stream.get_int(4))
+        self.lEID = "0x{:08X}".format(self.stream.get_int(4))
 
         out = OrderedDict()
         out["Section Version"] = self.versionID
